@@ -56,7 +56,23 @@ fn execute(hist: &[Call], shapes: &[Shape], dests: &[Dest; 3], complete: bool, k
         let mut problems: Vec<(String, J)> = vec![];
         let mut fault_call: Option<&'static str> = None;
         let mut retried = false;
-        if complete {
+        if complete && kind == 2 {
+            // the complete writer's consuming bulk route: every pair of the history in ONE call
+            let w = Writer::new(ShapeWriter::with_shx(dests[0].clone(), dests[1].clone()), table_builder().build_with_dest(dests[2].clone()));
+            let tail: Vec<&Shape> = hist.iter().filter_map(|c| if let Call::W(si) = c { Some(&shapes[*si]) } else { None }).collect();
+            let rows: Vec<shapefile::dbase::Record> = (0..tail.len()).map(row).collect();
+            set_epoch(1);
+            let res = bulk_pairs(w, &tail, &rows);
+            let fired = fired_in(1);
+            match (&res, fired) {
+                (Ok(()), true) => problems.push(("write_shapes_and_records/swallowed".into(), J::UInt(0))),
+                (Err(er), false) => problems.push(("write_shapes_and_records/spurious-error".into(), J::s(err_class(er)))),
+                _ => {}
+            }
+            if fired {
+                fault_call = Some("write_shapes_and_records");
+            }
+        } else if complete {
             let mut w = Writer::new(ShapeWriter::with_shx(dests[0].clone(), dests[1].clone()), table_builder().build_with_dest(dests[2].clone()));
             for (i, c) in hist.iter().enumerate() {
                 if let Call::W(si) = c {
@@ -191,6 +207,38 @@ fn execute(hist: &[Call], shapes: &[Shape], dests: &[Dest; 3], complete: bool, k
     run
 }
 
+/// write_shapes_and_records consumes the writer: typed dispatch on the variant of the first shape.
+fn bulk_pairs<W: std::io::Write + std::io::Seek>(w: Writer<W>, tail: &[&Shape], rows: &[shapefile::dbase::Record]) -> Result<(), Error> {
+    macro_rules! go {
+        ($variant:ident, $T:ty) => {{
+            let v: Vec<&$T> = tail
+                .iter()
+                .map(|s| match s {
+                    Shape::$variant(x) => x,
+                    _ => panic!("harness: mixed tail"),
+                })
+                .collect();
+            w.write_shapes_and_records(v.into_iter().zip(rows.iter()))
+        }};
+    }
+    match tail[0] {
+        Shape::Point(_) => go!(Point, Point),
+        Shape::PointM(_) => go!(PointM, PointM),
+        Shape::PointZ(_) => go!(PointZ, PointZ),
+        Shape::Multipoint(_) => go!(Multipoint, Multipoint),
+        Shape::MultipointM(_) => go!(MultipointM, MultipointM),
+        Shape::MultipointZ(_) => go!(MultipointZ, MultipointZ),
+        Shape::Polyline(_) => go!(Polyline, Polyline),
+        Shape::PolylineM(_) => go!(PolylineM, PolylineM),
+        Shape::PolylineZ(_) => go!(PolylineZ, PolylineZ),
+        Shape::Polygon(_) => go!(Polygon, Polygon),
+        Shape::PolygonM(_) => go!(PolygonM, PolygonM),
+        Shape::PolygonZ(_) => go!(PolygonZ, PolygonZ),
+        Shape::Multipatch(_) => go!(Multipatch, Multipatch),
+        Shape::NullShape => panic!("harness: null tail"),
+    }
+}
+
 pub fn run(ctx: &Ctx) -> Report {
     let types: Vec<i32> = if cfg!(miri) { vec![1, 13] } else { TYPES.to_vec() };
     // histories: shape indices refer to a per-type list of 3 shapes of different sizes
@@ -234,13 +282,13 @@ pub fn run(ctx: &Ctx) -> Report {
     }
     // writer kinds: 0 ShapeWriter::with_shx, 1 the complete Writer, 2 ShapeWriter::new (no index
     // destination), 3 ShapeWriter::with_shx driven through ONE consuming write_shapes call
-    let items: Vec<(i32, usize, u8)> = types.iter().flat_map(|&t| (0..hists.len()).flat_map(move |h| (0..4u8).map(move |wk| (t, h, wk)))).collect();
+    let items: Vec<(i32, usize, u8)> = types.iter().flat_map(|&t| (0..hists.len()).flat_map(move |h| (0..5u8).map(move |wk| (t, h, wk)))).collect();
     let mut rep = par(ctx, items.len(), |idx, rep| {
         let (t, hi, wk) = items[idx];
-        let complete = wk == 1;
+        let complete = wk == 1 || wk == 4;
         let kind: u8 = match wk {
             2 => 1,
-            3 => 2,
+            3 | 4 => 2,
             _ => 0,
         };
         let hist = &hists[hi];
@@ -248,11 +296,11 @@ pub fn run(ctx: &Ctx) -> Report {
         if long && (!matches!(t, 1 | 23) || wk >= 2) {
             return; // the long histories run for two types and the two main writer kinds
         }
-        if complete && hist.contains(&Call::F) && hi != 0 && !long {
+        if wk == 1 && hist.contains(&Call::F) && hi != 0 && !long {
             return; // the complete writer has no finalize; it runs the W-only projection of history 0 and the W-only histories
         }
-        if wk == 3 && hi != 0 {
-            return; // the bulk route runs the W-only projection of history 0
+        if wk >= 3 && hi != 0 {
+            return; // the bulk routes run the W-only projection of history 0
         }
         if cfg!(miri) && wk >= 2 && hi != 0 {
             return;
@@ -264,7 +312,7 @@ pub fn run(ctx: &Ctx) -> Report {
             gen::shape_exact(t, &mut r, &Cfg::plain(2, 3), 2, 3),
             gen::shape_exact(t, &mut r, &Cfg::plain(3, 4), 3, 4),
         ];
-        let wname = ["ShapeWriter", "Writer", "ShapeWriter::new(no index)", "ShapeWriter+write_shapes(bulk)"][wk as usize];
+        let wname = ["ShapeWriter", "Writer", "ShapeWriter::new(no index)", "ShapeWriter+write_shapes(bulk)", "Writer+write_shapes_and_records(bulk)"][wk as usize];
         // undisturbed run: golden bytes and the number of operations per destination
         let golden_dests = [Dest::new(), Dest::new(), Dest::new()];
         let golden = execute(&hist, &shapes, &golden_dests, complete, kind, false);
